@@ -7,7 +7,7 @@ def wrapU (w : Nat) (x : Int) : Int := x % (2 ^ w)
 /-- wrap to a signed w-bit value (two's complement) -/
 def wrapS (w : Nat) (x : Int) : Int := (x + 2 ^ (w - 1)) % (2 ^ w) - 2 ^ (w - 1)
 
-/-- translated from ledger/common/rules.go:115 `CalculateMinFee` -/
+/-- translated from ledger/common/rules.go:122 `CalculateMinFee` -/
 def calculateMinFee (bodySize : Int) (minFeeA : Int) (minFeeB : Int) : Int × Bool :=
   if decide (bodySize < 0) then
     (0, true)
